@@ -53,13 +53,10 @@ def should_run(target, fs, spec_hashes):
 
 
 def schedule(endpoints, graph, fs, spec_hashes, status_func, submit_func):
-    def _schedule(target):
-        submitted_deps = []
-        for dep in sorted(graph.dependencies[target], key=lambda t: t.name):
-            status = _cached_schedule(dep)
-            if status in SUBMITTED_STATES:
-                submitted_deps.append(dep)
+    def _dependencies(target):
+        return sorted(graph.dependencies[target], key=lambda t: t.name)
 
+    def _schedule(target, submitted_deps):
         if status_func(target) == BackendStatus.SUBMITTED:
             logger.debug("Target %s is already submitted", target)
             return Status.SUBMITTED
@@ -93,10 +90,29 @@ def schedule(endpoints, graph, fs, spec_hashes, status_func, submit_func):
 
     cache = {}
 
-    def _cached_schedule(target):
-        if target not in cache:
-            cache[target] = _schedule(target)
-        return cache[target]
+    def _cached_schedule(root):
+        if root in cache:
+            return cache[root]
+
+        # Post-order traversal with an explicit stack instead of recursion:
+        # dependency chains can be thousands of targets deep. Each frame holds a
+        # target, an iterator over its dependencies and the dependencies found
+        # to be submitted so far.
+        stack = [(root, iter(_dependencies(root)), [])]
+        while stack:
+            target, deps, submitted_deps = stack[-1]
+            for dep in deps:
+                if dep not in cache:
+                    stack.append((dep, iter(_dependencies(dep)), []))
+                    break
+                if cache[dep] in SUBMITTED_STATES:
+                    submitted_deps.append(dep)
+            else:
+                stack.pop()
+                status = cache[target] = _schedule(target, submitted_deps)
+                if stack and status in SUBMITTED_STATES:
+                    stack[-1][2].append(target)
+        return cache[root]
 
     for target in sorted(endpoints, key=lambda t: t.name):
         _cached_schedule(target)
